@@ -76,6 +76,8 @@ class CPCCARotator(CPCCA):
     ):
         BaseModel.__init__(self)
 
+        if not isinstance(n_modes, int):
+            raise TypeError("n_modes must be an integer")
         if max_iter is None:
             max_iter = 1000 if compute else 100
 
